@@ -382,6 +382,22 @@ def optimizer_counts(ctx, rep):
             if ev.eval_count != calls["n"]:
                 rep.violate(f"evaluation count {ev.eval_count} but the base fitness entry points were invoked {calls['n']} times (local optimization)",
                             "C19:local-opt-count", {"trial": t})
+            # redundant evaluation of the (now marked) population after the training data was replaced: every individual is evaluated
+            # AGAIN by the fitness function, on the data it has now
+            y2 = y * 2.0 + 1.0
+            lo.training_data = ExplicitTrainingData(x, y2)
+            ev2 = Evaluation(lo, redundant=True)
+            before_calls = calls["n"]
+            with warnings.catch_warnings():
+                warnings.simplefilter("ignore")
+                ev2(pop)
+            ref2 = ExplicitRegression(ExplicitTrainingData(x, y2))
+            stale = [i for i, a in enumerate(pop) if not (abs(float(a.fitness) - float(ref2(a.copy()))) <= 1e-9 * max(1.0, abs(float(ref2(a.copy())))))]
+            rep.count("optimizer", "redundant re-evaluation through the local-optimization wrapper")
+            if stale or calls["n"] - before_calls < len(pop):
+                rep.violate(f"redundant evaluation through the local-optimization wrapper after the data was replaced: slots {stale} keep the old "
+                            f"fitness; the base fitness entry points were invoked {calls['n'] - before_calls} times for {len(pop)} individuals",
+                            "C19:not-evaluated", {"trial": t})
         # multi-process evaluation with a locally optimizing fitness function: what a slot holds after the phase must be the
         # individual the fitness was computed ON (its constants are the optimized ones, it no longer asks for optimization,
         # its stored fitness is the base fitness of the constants it holds), and the count includes the workers' invocations
